@@ -113,6 +113,9 @@ func ruleC07(c *Check, p *Prog) {
 	c.Floor("R-WF-ACC", 9)
 	c.Floor("R-WF-DECIDE", 12)
 	c.Floor("R-WF-RET", 3)
+	// the round functions the descriptors refer to: results[i] = TestMethodArr[i].Runner(data) for all 15 / the first 12 items
+	checkRound(c, p, "Round15", 15, false)
+	checkRound(c, p, "Round12", 12, true)
 	for _, ref := range seqRefs {
 		d := analyzeSeq(c, p, ref.Name, map[string]bool{"R-WF-READ": true})
 		if d == nil || !d.ok {
